@@ -390,7 +390,9 @@ def part_router(sub, tier, acc, k=None):
                 judge_load(acc, dict(part="router", sub=sub, entries=e,
                                      chip=[3, 7], app=1), e, [3, 7], 1)
     elif sub == "lengths":
-        for n in (1, 2, 3, 16, 1023, 1024):
+        # 0 entries: the machine's allocator refuses an empty block (as
+        # SARK's does), which is "the block cannot be allocated"
+        for n in (0, 1, 2, 3, 16, 1023, 1024):
             for app in (0, 66):
                 acc.nontrivial += 1
                 e = [([i % 24], i, 0xffffffff) for i in range(n)]
